@@ -15,6 +15,11 @@ Definition mutable_fields : list string := [
   "batchedstore.store.currentBatch";
   "cachedstore.CachedProvider.openStores";
   "formattedstore.FormattedProvider.openStores";
+  "leveldb.Provider.dbs";
+  "leveldb.dbEntry.Tags";
+  "leveldb.dbEntry.Value";
+  "leveldb.iterator.currentIndex";
+  "leveldb.iterator.currentKey";
   "localkms.storeWriter.KeysetID";
   "mem.Provider.dbs";
   "mem.memIterator.currentDBEntry";
@@ -38,6 +43,8 @@ Definition mutable_fields : list string := [
   "messagepickup.inbox.TotalSize";
   "service.Action.event";
   "service.Message.events";
+  "wallet.contentStore.close";
+  "wallet.contentStore.open";
   "ws.connPool.connMap"
 ].
 
@@ -207,6 +214,41 @@ Definition table : list meth := [
     []
     [mkSCall "cachedstore.store.mainStore" "Query" []]
     [];
+  mkMeth "did.New" true
+    []
+    []
+    []
+    [];
+  mkMeth "did.Store.GetDID" true
+    []
+    []
+    [mkSCall "did.Store.store" "Get" []]
+    [];
+  mkMeth "did.Store.GetDIDByName" true
+    []
+    [mkCall "did.didNameDataKey" []]
+    [mkSCall "did.Store.store" "Get" []]
+    [];
+  mkMeth "did.Store.GetDIDRecords" true
+    []
+    [mkCall "did.getDIDName" []]
+    [mkSCall "did.Store.store" "Query" []]
+    [];
+  mkMeth "did.Store.SaveDID" true
+    []
+    [mkCall "did.Store.GetDIDByName" []; mkCall "did.didNameDataKey" []]
+    [mkSCall "did.Store.store" "Put" []; mkSCall "did.Store.store" "Put" []]
+    [];
+  mkMeth "did.didNameDataKey" false
+    []
+    []
+    []
+    [];
+  mkMeth "did.getDIDName" false
+    []
+    []
+    []
+    [];
   mkMeth "formattedstore.FormattedProvider.Close" true
     []
     []
@@ -219,7 +261,7 @@ Definition table : list meth := [
     [mkAcq "formattedstore.FormattedProvider.lock" false false []];
   mkMeth "formattedstore.FormattedProvider.GetStoreConfig" true
     [mkAcc "formattedstore.FormattedProvider.openStores" false []]
-    [mkCall "formattedstore.FormattedProvider.OpenStore" []; mkCall "formattedstore.formatStore.Get" []]
+    [mkCall "formattedstore.FormattedProvider.OpenStore" []]
     []
     [];
   mkMeth "formattedstore.FormattedProvider.OpenStore" true
@@ -334,7 +376,7 @@ Definition table : list meth := [
     [];
   mkMeth "formattedstore.formatStore.deleteDataStoredUnderNonDeterministicKey" false
     []
-    [mkCall "formattedstore.formatStore.queryUsingKeyTag" [("formattedstore.formatStore.lock", true)]; mkCall "formattedstore.formattedIterator.Next" [("formattedstore.formatStore.lock", true)]; mkCall "formattedstore.formattedIterator.Key" [("formattedstore.formatStore.lock", true)]; mkCall "formattedstore.formattedIterator.Next" [("formattedstore.formatStore.lock", true)]]
+    [mkCall "formattedstore.formatStore.queryUsingKeyTag" [("formattedstore.formatStore.lock", true)]]
     [mkSCall "formattedstore.formatStore.underlyingStore" "Delete" [("formattedstore.formatStore.lock", true)]]
     [mkAcq "formattedstore.formatStore.lock" true false []];
   mkMeth "formattedstore.formatStore.determineFormattedKeyToUse" false
@@ -364,7 +406,7 @@ Definition table : list meth := [
     [];
   mkMeth "formattedstore.formatStore.getFormattedKeyViaStoreQuery" false
     []
-    [mkCall "formattedstore.formatStore.queryUsingKeyTag" []; mkCall "formattedstore.formattedIterator.Next" []; mkCall "formattedstore.formattedIterator.Key" []; mkCall "formattedstore.formattedIterator.Next" []]
+    [mkCall "formattedstore.formatStore.queryUsingKeyTag" []]
     []
     [];
   mkMeth "formattedstore.formatStore.getTagsStoredUnderDeterministicKey" false
@@ -374,7 +416,7 @@ Definition table : list meth := [
     [];
   mkMeth "formattedstore.formatStore.getTagsStoredUnderNonDeterministicKey" false
     []
-    [mkCall "formattedstore.formatStore.Query" [("formattedstore.formatStore.lock", false)]; mkCall "formattedstore.formattedIterator.Next" [("formattedstore.formatStore.lock", false)]; mkCall "formattedstore.formattedIterator.Tags" [("formattedstore.formatStore.lock", false)]; mkCall "formattedstore.formattedIterator.Next" [("formattedstore.formatStore.lock", false)]; mkCall "formattedstore.filterOutKeyTag" [("formattedstore.formatStore.lock", false)]]
+    [mkCall "formattedstore.formatStore.Query" [("formattedstore.formatStore.lock", false)]; mkCall "formattedstore.filterOutKeyTag" [("formattedstore.formatStore.lock", false)]]
     []
     [mkAcq "formattedstore.formatStore.lock" false false []];
   mkMeth "formattedstore.formatStore.getValueStoredUnderDeterministicKey" false
@@ -384,7 +426,7 @@ Definition table : list meth := [
     [];
   mkMeth "formattedstore.formatStore.getValueStoredUnderNonDeterministicKey" false
     []
-    [mkCall "formattedstore.formatStore.Query" []; mkCall "formattedstore.formattedIterator.Next" []; mkCall "formattedstore.formattedIterator.Value" []; mkCall "formattedstore.formattedIterator.Next" []]
+    [mkCall "formattedstore.formatStore.Query" []]
     []
     [];
   mkMeth "formattedstore.formatStore.getValuesStoredUnderDeterministicKeys" false
@@ -409,7 +451,7 @@ Definition table : list meth := [
     [];
   mkMeth "formattedstore.formatStore.storeUsingNonDeterministicKey" false
     []
-    [mkCall "formattedstore.formatStore.queryUsingKeyTag" [("formattedstore.formatStore.lock", true)]; mkCall "formattedstore.formattedIterator.Next" [("formattedstore.formatStore.lock", true)]; mkCall "formattedstore.generateKeyTag" [("formattedstore.formatStore.lock", true)]; mkCall "formattedstore.formatStore.formatAndPut" [("formattedstore.formatStore.lock", true)]; mkCall "formattedstore.formattedIterator.Key" [("formattedstore.formatStore.lock", true)]; mkCall "formattedstore.formattedIterator.Next" [("formattedstore.formatStore.lock", true)]]
+    [mkCall "formattedstore.formatStore.queryUsingKeyTag" [("formattedstore.formatStore.lock", true)]; mkCall "formattedstore.generateKeyTag" [("formattedstore.formatStore.lock", true)]; mkCall "formattedstore.formatStore.formatAndPut" [("formattedstore.formatStore.lock", true)]]
     [mkSCall "formattedstore.formatStore.formatter" "Format" [("formattedstore.formatStore.lock", true)]; mkSCall "formattedstore.formatStore.underlyingStore" "Put" [("formattedstore.formatStore.lock", true)]]
     [mkAcq "formattedstore.formatStore.lock" true false []];
   mkMeth "formattedstore.formattedIterator.Close" true
@@ -462,6 +504,171 @@ Definition table : list meth := [
     []
     []
     [];
+  mkMeth "leveldb.NewProvider" true
+    []
+    []
+    []
+    [];
+  mkMeth "leveldb.Provider.Close" true
+    [mkAcc "leveldb.Provider.dbs" false [("leveldb.Provider.lock", false)]]
+    []
+    []
+    [mkAcq "leveldb.Provider.lock" false false []];
+  mkMeth "leveldb.Provider.GetOpenStores" true
+    [mkAcc "leveldb.Provider.dbs" false [("leveldb.Provider.lock", false)]]
+    []
+    []
+    [mkAcq "leveldb.Provider.lock" false false []];
+  mkMeth "leveldb.Provider.GetStoreConfig" true
+    [mkAcc "leveldb.Provider.dbs" false []]
+    []
+    []
+    [];
+  mkMeth "leveldb.Provider.OpenStore" true
+    []
+    [mkCall "leveldb.Provider.getLeveldbStore" []; mkCall "leveldb.Provider.newLeveldbStore" []]
+    []
+    [];
+  mkMeth "leveldb.Provider.SetStoreConfig" true
+    [mkAcc "leveldb.Provider.dbs" false []]
+    []
+    []
+    [];
+  mkMeth "leveldb.Provider.getLeveldbStore" false
+    [mkAcc "leveldb.Provider.dbs" false [("leveldb.Provider.lock", false)]]
+    []
+    []
+    [mkAcq "leveldb.Provider.lock" false false []];
+  mkMeth "leveldb.Provider.newLeveldbStore" false
+    [mkAcc "leveldb.Provider.dbs" true [("leveldb.Provider.lock", true)]]
+    []
+    []
+    [mkAcq "leveldb.Provider.lock" true false []];
+  mkMeth "leveldb.Provider.removeStore" false
+    [mkAcc "leveldb.Provider.dbs" false [("leveldb.Provider.lock", true)]; mkAcc "leveldb.Provider.dbs" true [("leveldb.Provider.lock", true)]]
+    []
+    []
+    [mkAcq "leveldb.Provider.lock" true false []];
+  mkMeth "leveldb.checkForUnsupportedQueryOptions" false
+    []
+    [mkCall "leveldb.getQueryOptions" []]
+    []
+    [];
+  mkMeth "leveldb.getDatabaseKeysMatchingTagName" false
+    []
+    []
+    []
+    [];
+  mkMeth "leveldb.getQueryOptions" false
+    []
+    []
+    []
+    [];
+  mkMeth "leveldb.iterator.Close" true
+    []
+    []
+    []
+    [];
+  mkMeth "leveldb.iterator.Key" true
+    [mkAcc "leveldb.iterator.currentKey" false []]
+    []
+    []
+    [];
+  mkMeth "leveldb.iterator.Next" true
+    [mkAcc "leveldb.iterator.currentIndex" false []; mkAcc "leveldb.iterator.currentKey" true []; mkAcc "leveldb.iterator.currentIndex" true []]
+    []
+    []
+    [];
+  mkMeth "leveldb.iterator.Tags" true
+    [mkAcc "leveldb.iterator.currentKey" false []]
+    []
+    [mkSCall "leveldb.iterator.store" "GetTags" []]
+    [];
+  mkMeth "leveldb.iterator.TotalItems" true
+    []
+    []
+    []
+    [];
+  mkMeth "leveldb.iterator.Value" true
+    [mkAcc "leveldb.iterator.currentKey" false []]
+    []
+    [mkSCall "leveldb.iterator.store" "Get" []]
+    [];
+  mkMeth "leveldb.store.Batch" true
+    [mkAcc "leveldb.dbEntry.Value" false []; mkAcc "leveldb.dbEntry.Tags" false []]
+    [mkCall "leveldb.store.Delete" []; mkCall "leveldb.store.Put" []]
+    []
+    [];
+  mkMeth "leveldb.store.Close" true
+    []
+    []
+    [mkSCall "leveldb.store.close" "()" []; mkSCall "leveldb.store.db" "Close" []]
+    [];
+  mkMeth "leveldb.store.Delete" true
+    []
+    [mkCall "leveldb.store.removeFromTagMap" []]
+    [mkSCall "leveldb.store.db" "Delete" []]
+    [];
+  mkMeth "leveldb.store.Flush" true
+    []
+    []
+    []
+    [];
+  mkMeth "leveldb.store.Get" true
+    [mkAcc "leveldb.dbEntry.Value" false []]
+    [mkCall "leveldb.store.getDBEntry" []]
+    []
+    [];
+  mkMeth "leveldb.store.GetBulk" true
+    []
+    [mkCall "leveldb.store.Get" []]
+    []
+    [];
+  mkMeth "leveldb.store.GetTags" true
+    [mkAcc "leveldb.dbEntry.Tags" false []]
+    [mkCall "leveldb.store.getDBEntry" []]
+    []
+    [];
+  mkMeth "leveldb.store.Put" true
+    [mkAcc "leveldb.dbEntry.Value" false []; mkAcc "leveldb.dbEntry.Value" true []; mkAcc "leveldb.dbEntry.Tags" true []]
+    [mkCall "leveldb.store.updateTagMap" []]
+    [mkSCall "leveldb.store.db" "Put" []]
+    [];
+  mkMeth "leveldb.store.Query" true
+    []
+    [mkCall "leveldb.checkForUnsupportedQueryOptions" []; mkCall "leveldb.store.getDatabaseKeysMatchingQuery" []]
+    []
+    [];
+  mkMeth "leveldb.store.getDBEntry" false
+    []
+    []
+    [mkSCall "leveldb.store.db" "Get" []]
+    [];
+  mkMeth "leveldb.store.getDatabaseKeysMatchingQuery" false
+    []
+    [mkCall "leveldb.store.getTagMap" []; mkCall "leveldb.getDatabaseKeysMatchingTagName" []; mkCall "leveldb.store.getDatabaseKeysMatchingTagNameAndValue" []]
+    []
+    [];
+  mkMeth "leveldb.store.getDatabaseKeysMatchingTagNameAndValue" false
+    [mkAcc "leveldb.dbEntry.Value" false []]
+    [mkCall "leveldb.store.GetTags" []]
+    []
+    [];
+  mkMeth "leveldb.store.getTagMap" false
+    []
+    [mkCall "leveldb.store.Get" []; mkCall "leveldb.store.Put" []]
+    []
+    [];
+  mkMeth "leveldb.store.removeFromTagMap" false
+    []
+    [mkCall "leveldb.store.getTagMap" [("leveldb.store.lock", true)]; mkCall "leveldb.store.Put" [("leveldb.store.lock", true)]]
+    []
+    [mkAcq "leveldb.store.lock" true false []];
+  mkMeth "leveldb.store.updateTagMap" false
+    []
+    [mkCall "leveldb.store.getTagMap" [("leveldb.store.lock", true)]; mkCall "leveldb.store.Put" [("leveldb.store.lock", true)]]
+    []
+    [mkAcq "leveldb.store.lock" true false []];
   mkMeth "localkms.LocalKMS.Create" true
     []
     [mkCall "localkms.LocalKMS.storeKeySet" []]
@@ -499,7 +706,7 @@ Definition table : list meth := [
     [];
   mkMeth "localkms.LocalKMS.Rotate" true
     []
-    [mkCall "localkms.LocalKMS.getKeySet" []; mkCall "localkms.LocalKMS.Rotate" []; mkCall "localkms.LocalKMS.storeKeySet" []]
+    [mkCall "localkms.LocalKMS.getKeySet" []; mkCall "localkms.LocalKMS.storeKeySet" []]
     [mkSCall "localkms.LocalKMS.store" "Delete" []]
     [];
   mkMeth "localkms.LocalKMS.buildAndImportECDSAPrivateKeyAsECDHKW" false
@@ -554,7 +761,7 @@ Definition table : list meth := [
     [];
   mkMeth "localkms.LocalKMS.storeKeySet" false
     []
-    [mkCall "localkms.LocalKMS.generateKID" []; mkCall "localkms.storeWriter.Write" []; mkCall "localkms.writeToStore" []; mkCall "localkms.writeToStore" []]
+    [mkCall "localkms.LocalKMS.generateKID" []; mkCall "localkms.writeToStore" []; mkCall "localkms.writeToStore" []]
     []
     [];
   mkMeth "localkms.LocalKMS.writeImportedKey" false
@@ -599,7 +806,7 @@ Definition table : list meth := [
     [];
   mkMeth "localkms.newProtoBBSPrivateKey" false
     []
-    [mkCall "localkms.buidBBSParams" []]
+    []
     []
     [];
   mkMeth "localkms.newProtoECDSAPrivateKey" false
@@ -789,7 +996,7 @@ Definition table : list meth := [
     [mkAcq "mem.memStore.RWMutex" false false []];
   mkMeth "messagepickup.New" true
     []
-    [mkCall "messagepickup.Service.Initialize" []]
+    []
     []
     [];
   mkMeth "messagepickup.Service.Accept" true
@@ -947,7 +1154,127 @@ Definition table : list meth := [
     []
     []
     [mkAcq "service.Message.mu" true false []];
+  mkMeth "wallet.ContentType.IsValid" true
+    []
+    []
+    []
+    [];
+  mkMeth "wallet.ContentType.Name" true
+    []
+    []
+    []
+    [];
+  mkMeth "wallet.contentStore.Close" true
+    [mkAcc "wallet.contentStore.close" false [("wallet.contentStore.lock", true)]; mkAcc "wallet.contentStore.open" true [("wallet.contentStore.lock", true)]; mkAcc "wallet.contentStore.close" true [("wallet.contentStore.lock", true)]]
+    [mkCall "wallet.storeManager" [("wallet.contentStore.lock", true)]]
+    []
+    [mkAcq "wallet.contentStore.lock" true false []];
+  mkMeth "wallet.contentStore.Get" true
+    [mkAcc "wallet.contentStore.open" false [("wallet.contentStore.lock", false)]]
+    [mkCall "wallet.getContentKeyPrefix" [("wallet.contentStore.lock", false)]]
+    []
+    [mkAcq "wallet.contentStore.lock" false false []];
+  mkMeth "wallet.contentStore.GetAll" true
+    [mkAcc "wallet.contentStore.open" false [("wallet.contentStore.lock", false)]]
+    [mkCall "wallet.removeKeyPrefix" [("wallet.contentStore.lock", false)]]
+    []
+    [mkAcq "wallet.contentStore.lock" false false []];
+  mkMeth "wallet.contentStore.GetAllByCollection" true
+    [mkAcc "wallet.contentStore.open" false [("wallet.contentStore.lock", false)]]
+    [mkCall "wallet.removeCollectionMappingKeyPrefix" [("wallet.contentStore.lock", false)]; mkCall "wallet.getContentKeyPrefix" [("wallet.contentStore.lock", false)]]
+    []
+    [mkAcq "wallet.contentStore.lock" false false []];
+  mkMeth "wallet.contentStore.Open" true
+    []
+    [mkCall "wallet.storeManager" []; mkCall "wallet.contentStore.updateStoreHandles" [("wallet.contentStore.lock", true)]]
+    [mkSCall "wallet.contentStore.provider" "OpenStore" []]
+    [mkAcq "wallet.contentStore.lock" true false []];
+  mkMeth "wallet.contentStore.Remove" true
+    [mkAcc "wallet.contentStore.open" false [("wallet.contentStore.lock", false)]]
+    [mkCall "wallet.getCollectionMappingKeyPrefix" [("wallet.contentStore.lock", false)]; mkCall "wallet.getContentKeyPrefix" [("wallet.contentStore.lock", false)]]
+    []
+    [mkAcq "wallet.contentStore.lock" false false []];
+  mkMeth "wallet.contentStore.Save" true
+    []
+    [mkCall "wallet.contentStore.checkDataModel" []; mkCall "wallet.getContentID" []; mkCall "wallet.contentStore.mapCollection" []; mkCall "wallet.contentStore.safeSave" []; mkCall "wallet.getContentKeyPrefix" []; mkCall "wallet.contentStore.mapCollection" []; mkCall "wallet.contentStore.safeSave" []; mkCall "wallet.getContentKeyPrefix" []; mkCall "wallet.contentStore.checkDataModel" []; mkCall "wallet.saveKey" []]
+    []
+    [];
+  mkMeth "wallet.contentStore.checkDataModel" false
+    []
+    []
+    []
+    [];
+  mkMeth "wallet.contentStore.mapCollection" false
+    [mkAcc "wallet.contentStore.open" false [("wallet.contentStore.lock", false)]]
+    [mkCall "wallet.getContentKeyPrefix" [("wallet.contentStore.lock", false)]; mkCall "wallet.getCollectionMappingKeyPrefix" [("wallet.contentStore.lock", false)]]
+    []
+    [mkAcq "wallet.contentStore.lock" false false []];
+  mkMeth "wallet.contentStore.safeSave" false
+    [mkAcc "wallet.contentStore.open" false [("wallet.contentStore.lock", false)]]
+    []
+    []
+    [mkAcq "wallet.contentStore.lock" false false []];
+  mkMeth "wallet.contentStore.updateStoreHandles" false
+    [mkAcc "wallet.contentStore.open" true []; mkAcc "wallet.contentStore.close" true []]
+    [mkCall "wallet.sessionManager" []]
+    []
+    [];
+  mkMeth "wallet.getCollectionMappingKeyPrefix" false
+    []
+    []
+    []
+    [];
+  mkMeth "wallet.getContentID" false
+    []
+    [mkCall "wallet.getJWTContentID" []]
+    []
+    [];
+  mkMeth "wallet.getContentKeyPrefix" false
+    []
+    []
+    []
+    [];
+  mkMeth "wallet.getJWTContentID" false
+    []
+    [mkCall "wallet.unQuote" []]
+    []
+    [];
+  mkMeth "wallet.newContentBasedVDR" false
+    []
+    []
+    []
+    [];
+  mkMeth "wallet.newContentStore" false
+    []
+    []
+    []
+    [];
+  mkMeth "wallet.removeCollectionMappingKeyPrefix" false
+    []
+    []
+    []
+    [];
+  mkMeth "wallet.removeKeyPrefix" false
+    []
+    []
+    []
+    [];
+  mkMeth "wallet.saveKey" false
+    []
+    []
+    []
+    [];
   mkMeth "wallet.sessionManager" false
+    []
+    []
+    []
+    [];
+  mkMeth "wallet.storeManager" false
+    []
+    []
+    []
+    [];
+  mkMeth "wallet.unQuote" false
     []
     []
     []
@@ -976,6 +1303,26 @@ Definition table : list meth := [
     []
     []
     [mkSCall "wallet.walletSessionManager.gstore" "Get" []]
+    [];
+  mkMeth "wallet.walletStoreManager.delete" false
+    []
+    []
+    [mkSCall "wallet.walletStoreManager.gstore" "Remove" []]
+    [];
+  mkMeth "wallet.walletStoreManager.get" false
+    []
+    []
+    [mkSCall "wallet.walletStoreManager.gstore" "Get" []]
+    [];
+  mkMeth "wallet.walletStoreManager.persist" false
+    []
+    []
+    [mkSCall "wallet.walletStoreManager.gstore" "SetWithExpire" []]
+    [];
+  mkMeth "wallet.walletVDR.Resolve" true
+    []
+    []
+    [mkSCall "wallet.walletVDR.contents" "Get" []]
     [];
   mkMeth "wallet.wrapSessionError" false
     []
